@@ -175,8 +175,15 @@ fn run_one(b: &Bundle, p: &FsTzdbProvider) -> Pair {
         }
         "ZonedDateTime::hours_in_day" => ab!(z.hours_in_day_with_provider(p), z.hours_in_day()),
         "ZonedDateTime::with_plain_time" => {
-            let Ok(t) = PlainTime::try_new(b.b[3] as u8, b.b[4] as u8, b.b[5] as u8, b.b[6] as u16, b.b[7] as u16, b.b[8] as u16) else {
-                return Pair::NoInput("time");
+            // one case in three: the argument is the receiver's own wall-clock time (where a "nothing changes"
+            // shortcut would apply; in a repeated hour the result is still re-resolved)
+            let own = if b.k % 3 == 0 { guard(|| z.to_plain_time_with_provider(p)).ok().and_then(|r| r.ok()) } else { None };
+            let t = match own {
+                Some(t) => t,
+                None => match PlainTime::try_new(b.b[3] as u8, b.b[4] as u8, b.b[5] as u8, b.b[6] as u16, b.b[7] as u16, b.b[8] as u16) {
+                    Ok(t) => t,
+                    Err(_) => return Pair::NoInput("time"),
+                },
             };
             ab!(z.with_plain_time_and_provider(t, p), z.with_plain_time(t))
         }
